@@ -56,7 +56,7 @@ def check_inverse(prog, rep, K):
         for st in body_nodoc(fn.node):
             if isinstance(st, ast.Expr):
                 continue
-            if isinstance(st, ast.Assign) and isinstance(st.value, ast.Call) and dump(st.value.func) == "cls":
+            if isinstance(st, (ast.Assign, ast.Return)) and isinstance(st.value, ast.Call) and dump(st.value.func) == "cls":
                 kws, _ = kwargs_of(st.value)
                 kw = {k: vn.expr(v) for k, v in kws.items() if k in ("mat", "location", "scale")}
                 break
